@@ -113,6 +113,7 @@ def term (ps1 : Bytes) (o : OpObs) (r : Ref) (want : Nat → List Char → TRes)
     match r.rem.status with
     | none => .outside          -- the command is still waiting for input
     | some st =>
+      if 256 ≤ st then .outside else     -- an exit status is a byte
       let resp := Shell.respStatus false ps1 st
       let rest := if ph == .ended then [] else r.pend
       if ph == .ended && !r.pend.isEmpty then .outside else
@@ -185,7 +186,7 @@ end Ref
 def nextOk (c : Case) (n : NextObs) : Bool :=
   let line := Shell.lineOf c.next ++ [Tty.CR]
   if forbidden (blacklist c) line then n.val == .err "illegal" && n.argv.isNone
-  else if !promptOk (prompt c) (Tty.cook c.next.out ++ prompt c) (some 0) then true
+  else if !promptOk (prompt c) (Tty.cook c.next.out ++ prompt c) (some 0) || 256 ≤ c.next.status then true
   else n.argv == some c.next.args && n.val == .rc c.next.status (text (Tty.cook c.next.out))
 
 /-- the scenario after `run()` was entered -/
